@@ -53,6 +53,8 @@ theorem isNoneT {α} (o : Option α) : (o.isNone = true) ↔ o = none := by case
 @[simp] theorem pbufClose_hist (sh : Sh) (e : Err) : (pbufClose sh e).hist = sh.hist := rfl
 @[simp] theorem pbufClose_midN (sh : Sh) (e : Err) : (pbufClose sh e).midN = sh.midN := rfl
 @[simp] theorem pbufClose_failed (sh : Sh) (e : Err) : (pbufClose sh e).failed = sh.failed := rfl
+@[simp] theorem pbufClose_putLog (sh : Sh) (e : Err) : (pbufClose sh e).putLog = sh.putLog := rfl
+@[simp] theorem pbufClose_getLog (sh : Sh) (e : Err) : (pbufClose sh e).getLog = sh.getLog := rfl
 
 /-! ### classifiers of calls, continuations, write sections -/
 
